@@ -53,6 +53,23 @@ def mixed(rng):
 
 # Snippets that make every registered syntax rule look at something (C13/C12/C20).
 RULE_TRIGGERS = [
+    # branches of errors.py that tools/linecov.py showed the workload never executed
+    'from __future__ import barry_as_FLUFL\n', 'from __future__ import barry_as_FLUFL, division\n', 'x = 1\nfrom __future__ import barry_as_FLUFL\n',
+    '{1, 2} += 1\n', '{1: 2} += 1\n', '{**a} += 1\n', '{} += 1\n', '[x for x in y] += 1\n', '{x for x in y} += 1\n', '{x: 1 for x in y} += 1\n',
+    '(x for x in y) += 1\n', 'None += 1\n', '... += 1\n', '() += 1\n', '(a, b) += 1\n', '((a)) += 1\n', '[] += 1\n', '[a, b] += 1\n',
+    'lambda: 0 += 1\n', 'a < b += 1\n', "'s' += 1\n", "'s' 't' += 1\n", '1 += 1\n', '(yield) += 1\n', 'x if y else z += 1\n', 'await x += 1\n',
+    '-a += 1\n', 'a + b += 1\n', 'a * b += 1\n', 'a ** b += 1\n', 'not a += 1\n', 'a or b += 1\n', '*a += 1\n', 'a, b += 1\n', "f'{x}' += 1\n",
+    'a[0] += 1\n', 'a.b.c += 1\n', 'a().b += 1\n', 'a()[0] += 1\n', '(a.b) += 1\n', '(a[0]) += 1\n', 'a @= b\n', 'a //= b; a >>= b; a **= b\n',
+    'del *a, b\n', 'del (*a,)\n', 'del [*a]\n', 'del (*a)\n', 'del f(*a)\n', 'del x[*a]\n', 'del (a, (b, *c))\n',
+    '[(y := x) async for x in z]\n', 'async def f():\n    return [(y := x) async for x in z]\n', '{(y := x) async for x in z}\n',
+    '((y := x) async for x in z)\n', '[x async for x in z if (y := x)]\n', '[[(y := x) for a in b] async for x in z]\n', '[(x := 1) async for x in z]\n',
+    'first, *self.rest = items\n', 'head, *(mid, last) = items\n', 'for key, *obj.values in rows: pass\n', '*a[0], b = c\n', '[*a.b] = c\n',
+    'a, *[b, c] = d\n', 'with x as (a, *b.c): pass\n', '[x for a, *b.c in d]\n', 'del a, *b\n',
+    "def f():\n    return f'{(yield)}'\n", "def f(y):\n    return f'y:{yield y*2}'\n", "async def f():\n    x = f'{a:{(yield)}}'\n",
+    "def f():\n    x = 'a' f'{(yield from g())}' 'b'\n", "def f():\n    return f'yield'\n", "def f():\n    return f'{lambda: (yield)}'\n",
+    'def f():\n' + ''.join('    ' * (k + 1) + 'if x:\n' for k in range(20)) + '    ' * 21 + 'pass\n',
+    ''.join(' ' * k + 'for i in j:\n' for k in range(21)) + ' ' * 21 + 'pass\n',
+    'def f():\n' + ''.join(' ' * (k + 1) + ['while x:\n', 'try:\n', 'with a:\n'][k % 3] for k in range(22)) + ' ' * 23 + 'pass\n',
     'from __future__.a import b\n', 'x = 1\nfrom __future__.a import b\n', 'from __future__.a.b import *\n', 'raw = b"\\N{foo}"\n', 'txt = "\\N{foo}"\n',
     'b"\\u12"\n', '"\\u12"\n', 'b"\\U0011"\n', '"\\U0011"\n', 'b"\\N{v10"\n', '"\\N{v10"\n',
     'from __future__ import *\n', 'from __future__ import annotations\n', 'from __future__ import braces\n',
